@@ -191,7 +191,23 @@ CartBig == \* size ratios up to 1e2 and down to 1e-2 (no moves)
 
 (* ------------------------------------------------------------------------------ the state machine *)
 Candidates == IF Prop = "C14" THEN C14Flux \cup C14CircChart \cup CartLk \cup CartBig ELSE {}
-Base == {c \in Candidates : Premise(c)}
+\* Conditioning of the measurement (not part of the premise; it only selects which instances are worth integrating with a
+\* fixed-order rule): the cell is not a thin slab, and a cell that touches a body is not much larger than the body
+\* (otherwise single quadrature pieces would span decades of the field's variation and the instance would be unmeasurable).
+LinAxes(ch) == CASE ch.type = "cyl" -> {1, 3} [] ch.type = "sph" -> {1} [] OTHER -> {1, 2, 3}
+BodyScale(s) ==
+  CASE s.cls \in {"Cuboid", "TriangularMesh"} -> SetMin({s.dim[1], s.dim[2], s.dim[3]})
+    [] s.cls = "Cylinder" -> Min2(s.dim[1], s.dim[2])
+    [] s.cls = "CylinderSegment" -> Min2(s.dim[2] - s.dim[1], s.dim[3])
+    [] s.cls \in {"Sphere", "Circle"} -> s.dim[1]
+    [] s.cls = "Dipole" -> 1
+    [] OTHER -> LET b == LocalBox(s) IN SetMax({b.hi[k] - b.lo[k] : k \in 1..3})
+Conditioned(i) ==
+  i.law = "circ" \/
+  LET ext == {i.hi[k] - i.lo[k] : k \in LinAxes(i.ch)} IN
+  /\ SetMax(ext) <= 8 * SetMin(ext)
+  /\ \A k \in DOMAIN i.scene : (~Away(i.scene[k], i.ch, i.lo, i.hi) /\ ~Enclosed(i.scene[k], i.ch, i.lo, i.hi, i.full)) => SetMax(ext) <= 4 * BodyScale(i.scene[k])
+Base == {c \in Candidates : Premise(c) /\ Conditioned(c)}
 Movable(i) == i.fam \in {"lk:polyline", "lk:circle", "lk:coll"}
 Gens == {Rx90, Rz90}
 Shifts == IF Thorough THEN {<<1, -2, 3>>, <<-4, 0, 1>>} ELSE {<<1, -2, 3>>}
